@@ -159,6 +159,15 @@ CLAIMS = {
              "each is rendered into one- and two-statement scripts and both the printed names and 'the read finds what the write "
              "established' are decided by Trace_Names.",
         note="trusted: TLC, the spelling renderer, the case-per-part projection of printed names; one quote style per name"),
+    "C04": dict(
+        design="5/C04, 3.3",
+        technique="TLA+ model checking (TLC) of Chain.tla (end-to-end pairs = composition of per-statement flows; session knowledge of earlier targets) + every TLC-enumerated script run through the real LineageRunner with and without a provider + TLC trace validation (Trace_Chain re-takes the statements through the spec's actions)",
+        text="Chain.tla builds scripts of 2-4 statements (explicit, renamed, two-source expression, SELECT *, unqualified-in-a-join), each "
+             "writing the next target and reading the base table or any earlier target, tracks the columns the script establishes for every "
+             "table (what the run's session holds) and defines EndToEnd as the relational composition of the flows; TLC checks that unconsumed "
+             "columns end at intermediates and prints every script; each is rendered and run with a truthy provider and without one, and the "
+             "observed (first, last) pairs are decided by Trace_Chain.",
+        note="trusted: TLC, the script renderer; the provider in use knows only an unrelated table (truthy); full paths' shape is C06's business"),
 }
 
 NOT_YET = "check not built yet in this round; planned as described in DESIGN.md section 5"
